@@ -7,7 +7,7 @@ proof : lean/GeosModel/Props/C20.lean
           unrestricted statements are refuted with concrete witnesses; counts / dimension / |area| invariants
         * soundness of the exact certificate checkers (hull, envelope, minimum bounding circle, minimum width /
           rectangle over hull edge directions, point on surface)
-tie   : correspondence, three streams of harness/c20.cpp against drv_c20
+tie   : correspondence, six streams of harness/c20.cpp against drv_c20
         normalize  : GEOSNormalize_r output == model normal form, ordinate for ordinate, for a generated geometry and
                      2..4 variants (ring start / ring direction / element order); the expect line also carries the
                      implementation's own oracle (idempotent? all variants equal? equalsExact / equalsIdentical?)
@@ -16,6 +16,15 @@ tie   : correspondence, three streams of harness/c20.cpp against drv_c20
         compare    : signs of a.compareTo(b), b.compareTo(a), a.compareTo(a) == the modelled compareTo
         invariants : clone / reverse / normalize: dumps vs the model, reverse∘reverse, area / length vs exact values,
                      counts, dimension, equalsExact / equalsIdentical vs the model
+        pos        : point on surface / interior point on rectilinear (staircase, L, U, comb, cross) shells and holes of the
+                     integer grid whose horizontal edges lie on the candidate scan lines (centre of the extent, midway
+                     between consecutive vertex ordinates), several holes with collinear edges, lattice symmetries
+                     (transpose, mirror, shear, scale), multipolygons, mixed collections, lines, points: exact strict-interior
+                     oracle + the model of InteriorPointArea / InteriorPointLine / InteriorPointPoint
+        sequence   : programs over registers (an object, its clones / reverses / normalised copies / elements / a second
+                     build) with observing calls in between (envelope, area, length, counts, isEmpty, WKB, hull, centroid,
+                     isValid, normalize on a copy or in place ...) and equalsExact / equalsIdentical / compareTo both ways;
+                     the answers must be those of the stateless model, and equal values must give equal observations
 A failing oracle flag or a "violated:<condition>" answer is a concrete input on which the property itself fails for
 the implementation; it is classified (by the driver, with the Bool versions of the theorems' hypotheses) into a small
 signature so that known findings can be told from new ones."""
@@ -129,6 +138,10 @@ def run(ctx):
         "Orientation::isCCW is transcribed over exact integers (F64.scaleAll); Orientation::index is assumed exact on the generated inputs",
         "the constructions' algorithms (Graham scan, rotating calipers, scan line, triangle fan, MBC search) are not modelled: their outputs are checked by exact certificate checkers whose soundness is proved; 'minimum over hull edge directions = minimum over all directions' is the classical rotating-calipers fact and is not proved",
         "convex hull: strict corners (no collinear vertex left) are required on grid inputs only; on full-precision inputs Orientation::index is not exact (see findings) and only convexity / containment / corners-are-inputs are required",
+        "InteriorPointArea is modelled over exact rationals (Model/Construct/InteriorPoint.lean: scan-line interval, crossing rule, sorted crossings, widest section); "
+        "the implementation's double arithmetic is compared exactly in the ordinate and to 1e-9 in the abscissa / section width on grid inputs only; "
+        "InteriorPointLine / InteriorPointPoint are checked as rules (interior vertex if any else end point; nearest to the exact centroid to 1e-9), not modelled step by step",
+        "sequence stream: every observer is assumed to be a deterministic function of the geometry value (same value => same answer bit for bit); values are compared by their full dumps (flags, all ordinates' bits)",
         "numeric tolerances of the construct stream: centroid / MBC centre and radius / minimum width 1e-9 of the coordinate magnitude, minimum rotated rectangle 1e-6 (its corners are computed from un-translated line equations); point-on-surface premise 'valid polygon' is GEOSisValid",
     ])
     proved = ctx.prove_generated([("norm_compare", "GeosModel/Generated/NormCompare.lean", "GeosModel.Props.C20Gen"),
@@ -145,7 +158,8 @@ def run(ctx):
     quick = ctx.tier == "quick"
     shards = min(verif.NPROC, 8)
     plan = (("normalize", 6000 if quick else 120000), ("construct", 8000 if quick else 200000),
-            ("invariants", 6000 if quick else 120000), ("compare", 8000 if quick else 150000))
+            ("invariants", 6000 if quick else 120000), ("compare", 8000 if quick else 150000),
+            ("pos", 32000 if quick else 400000), ("sequence", 12000 if quick else 150000))
     corr = {}
     found_input = False
     for stream, n in plan:
@@ -249,6 +263,63 @@ def judge_compare(ctx, exe, r, pairs, cov):
     return found
 
 
+def replay_many(exe, stream, cases):
+    """re-run several case lines in one go: list of (fresh_line, driver_answer)"""
+    p = os.path.join(verif.BUILD, "work", "c20-replay-%d.txt" % os.getpid())
+    os.makedirs(os.path.dirname(p), exist_ok=True)
+    with open(p, "w") as f:
+        f.write("\n".join(cases) + "\n")
+    rc, out = verif.sh([exe, "replay", stream, p], timeout=300)
+    os.remove(p)
+    lines = [l for l in out.split("\n") if l.strip()]
+    if len(lines) != len(cases):
+        return [("", "")] * len(cases)
+    rc2, got = verif.run_driver_lines(stream, lines, driver_exe=DRV)
+    got = (got + [""] * len(lines))[:len(lines)]
+    return list(zip(lines, got))
+
+
+CREATING = ("cl", "rv", "nm", "bd", "sub")
+
+
+def shrink_sequence(exe, case, label):
+    """drop the observing / querying operations that are not needed for `label` (register-creating ones are kept so
+    that the numbering stays the same)"""
+    secs = case.split(" | ")
+    head = [x for x in secs if not x.startswith("O ")]
+    ops = [x for x in secs if x.startswith("O ")]
+    def line(keep):
+        return " | ".join(head + [o for o, k in zip(ops, keep) if k])
+    def fails(ans):
+        return ans.startswith("violated:") and label in ans.replace("violated:", "").split(",")
+    try:
+        keep = [True] * len(ops)
+        if not fails(replay_many(exe, "sequence", [line(keep)])[0][1]):
+            return case
+        for _ in range(3):
+            idx = [i for i, o in enumerate(ops) if keep[i] and o.split()[1] not in CREATING]
+            if not idx:
+                break
+            variants = [line([k and j != i for j, k in enumerate(keep)]) for i in idx]
+            res = replay_many(exe, "sequence", variants)
+            removable = [i for i, (_, a) in zip(idx, res) if fails(a)]
+            if not removable:
+                break
+            trial = [k and j not in removable for j, k in enumerate(keep)]
+            if fails(replay_many(exe, "sequence", [line(trial)])[0][1]):
+                keep = trial
+                continue
+            # removable one at a time but not together: go through them sequentially
+            for i in removable:
+                trial = list(keep); trial[i] = False
+                if fails(replay_many(exe, "sequence", [line(trial)])[0][1]):
+                    keep = trial
+            break
+        return line(keep)
+    except Exception:
+        return case
+
+
 def judge_checked(ctx, exe, stream, triples, cov):
     found = False
     groups = collections.defaultdict(list)
@@ -261,6 +332,8 @@ def judge_checked(ctx, exe, stream, triples, cov):
     cov["violated_conditions"] = {k: len(v) for k, v in groups.items()}
     for lb, items in sorted(groups.items()):
         case, got = min(items, key=lambda cg: len(cg[0]))
+        if stream == "sequence":
+            case = shrink_sequence(exe, case, lb)
         fresh_case, _, fresh_got = replay_case(exe, stream, case)
         if is_model_only(lb):
             ctx.violation("%s: the model and the implementation disagree on '%s' (no property condition fails on this input)" % (stream, lb),
